@@ -63,9 +63,17 @@ int main(void)
             GPString s = mkstr(h, hl);
             bool r2 = gp_str_equal(s, nd, nl);
             gp_str_delete(s);
-            printf("%d", r); if (r2 != r) printf(" str-variant:%d", r2); puts("");
+            printf("%d", r); if (r2 != r) printf(" str-variant:%d", r2);
+            /* the same two values as slices of one buffer (same start address) whenever one is a prefix of the other */
+            size_t mn = hl < nl ? hl : nl; const void* big = hl < nl ? (const void*)nd : (const void*)h;
+            if (memcmp(h, nd, mn) == 0) { bool r3 = gp_bytes_equal(big, hl, big, nl); if (r3 != r) printf(" aliased-variant:%d", r3); }
+            puts("");
         } else if (!strcmp(t[0], "eqc") && n == 3) {
-            printf("%d\n", gp_bytes_equal_case(h, hl, nd, nl));
+            bool r = gp_bytes_equal_case(h, hl, nd, nl);
+            printf("%d", r);
+            size_t mn = hl < nl ? hl : nl; const void* big = hl < nl ? (const void*)nd : (const void*)h;
+            if (memcmp(h, nd, mn) == 0) { bool r3 = gp_bytes_equal_case(big, hl, big, nl); if (r3 != r) printf(" aliased-variant:%d", r3); }
+            puts("");
         } else puts("bad-op");
         free(h); free(nd);
     }
